@@ -87,17 +87,36 @@ theorem StructEnv.table {e : Env} {t dd : Ty} (h : StructEnv e t dd) (d : Defect
   rw [h.hty]
   simp only [← h.hdd, h.hkind]
 
-theorem StructEnv.fetchBase {e : Env} {t dd : Ty} (h : StructEnv e t dd) : t.fetchBase = dd := by
-  unfold Ty.fetchBase
+theorem StructEnv.fetchBase {e : Env} {t dd : Ty} (h : StructEnv e t dd) (d : Defects) :
+    t.fetchBase d = dd := by
   have hk := h.hkind
-  rw [h.hdd] at hk ⊢
-  by_cases hp : t.kind = .ptr
-  · simp [hp, hk]
-  · have : (t.kind == RKind.ptr) = false := by simpa using hp
-    simp only [this, Bool.false_and]
-    unfold Ty.derefOnce
-    unfold Ty.kind at hp
-    cases hc : t.core <;> simp_all
+  have hdd := h.hdd
+  have hnp : dd.isPtr = false := Ty.isPtr_false_of_kind_struct hk
+  unfold Ty.fetchBase
+  by_cases hd : d.fetchDerefOnce = true
+  · rw [if_pos hd]
+    rw [hdd] at hk ⊢
+    by_cases hp : t.kind = .ptr
+    · simp [hp, hk]
+    · have : (t.kind == RKind.ptr) = false := by simpa using hp
+      simp only [this, Bool.false_and]
+      unfold Ty.derefOnce
+      unfold Ty.kind at hp
+      cases hc : t.core <;> simp_all
+  · rw [if_neg hd]
+    -- every pointer level: `t` is the struct itself or a pointer to it
+    unfold Ty.derefOnce at hdd
+    cases hc : t.core with
+    | ptr u =>
+      rw [hc] at hdd
+      simp only [] at hdd
+      rw [Ty.core_ptr_deref t u hc, ← hdd]
+      exact Ty.deref_of_not_isPtr hnp
+    | _ =>
+      rw [hc] at hdd
+      simp only [] at hdd
+      rw [← hdd]
+      exact Ty.deref_of_not_isPtr hnp
 
 theorem StructEnv.not_map {e : Env} {t dd : Ty} (h : StructEnv e t dd) :
     (t == Ty.map .string interfaceType) = false := by
@@ -118,9 +137,9 @@ theorem StructEnv.fetchEnv {e : Env} {t dd : Ty} (h : StructEnv e t dd) (d : Def
   obtain ⟨fs, hc⟩ := Ty.kind_struct_iff.1 h.hkind
   unfold ExprModel.fetchEnv
   rw [h.hty]
-  simp only [h.not_map, h.fetchBase, hc]
+  simp only [h.not_map, h.fetchBase d, hc]
   unfold fetchTy
-  simp only [h.fetchBase, hc]
+  simp only [h.fetchBase d, hc]
   cases reflField dd n with
   | found f => by_cases hx : f.exported = true <;> simp [hx]
   | ambiguous => rfl
@@ -278,19 +297,21 @@ theorem Ty.kind_map_iff {t : Ty} : t.kind = .map ↔ ∃ k v, t.core = .map k v 
   unfold Ty.kind
   cases h : t.core <;> simp
 
+theorem fetchBase_repaired (t : Ty) : t.fetchBase .repaired = t.deref := rfl
+
 theorem fieldType_repaired_succ (k : Nat) (t : Ty) (n : String) :
     fieldType .repaired (k + 1) t n =
-      match t.fetchBase.kind with
+      match t.deref.kind with
       | .iface => some interfaceType
-      | .map => if (t.fetchBase.mapKey?.map (stringKeyOk .repaired)).getD false then t.fetchBase.elem? else none
+      | .map => if (t.deref.mapKey?.map (stringKeyOk .repaired)).getD false then t.deref.elem? else none
       | .struct =>
-        match reflField t.fetchBase n with
+        match reflField t.deref n with
         | .found f => if f.exported then some f.ty else none
         | _ => none
       | _ => none := by
   unfold fieldType
   simp only [Defects.repaired, Bool.false_eq_true, if_false, Bool.false_or]
-  cases t.fetchBase.kind <;> rfl
+  cases t.deref.kind <;> rfl
 
 /-- accepted at top level: as an identifier, or (a method of the environment) as a function name -/
 def acceptedTop (d : Defects) (tbl : Table) (n : String) : Prop :=
